@@ -51,16 +51,19 @@ type Adapter struct {
 
 func noArg(*engine.Shape) int { return 0 }
 
-func mappingOK(errs []error) bool {
+// mappingOK is the success definition of ReadMapping / NewMapping. The parser
+// reports data after the declared size as a (documented, non-fatal) warning, so
+// "no error" cannot be the rule. Independently of the warning's wording: the
+// parse succeeded iff there is no error at all, or exactly one error together
+// with a non-empty remainder (every truncation path returns a nil remainder).
+func mappingOK(errs []error, rem []byte) bool {
+	n := 0
 	for _, e := range errs {
-		if e == nil {
-			continue
-		}
-		if !strings.Contains(e.Error(), "data exists beyond length of mapping") {
-			return false
+		if e != nil {
+			n++
 		}
 	}
-	return true
+	return n == 0 || (n == 1 && len(rem) > 0)
 }
 
 var sigsKAC = []int{0, 1, 2, 7, 8, 11}
@@ -215,11 +218,11 @@ var All = []*Adapter{
 	}},
 	{Name: "ReadMapping", Gen: mappingShape, Arg: noArg, Parse: func(b []byte, _ int) Result {
 		m, rem, errs := data.ReadMapping(b)
-		return Result{Val: &m, Rem: rem, HasRem: true, OK: mappingOK(errs)}
+		return Result{Val: &m, Rem: rem, HasRem: true, OK: mappingOK(errs, rem)}
 	}},
 	{Name: "NewMapping", Gen: mappingShape, Arg: noArg, Parse: func(b []byte, _ int) Result {
 		m, rem, errs := data.NewMapping(b)
-		return Result{Val: m, Rem: rem, HasRem: true, OK: mappingOK(errs) && m != nil}
+		return Result{Val: m, Rem: rem, HasRem: true, OK: mappingOK(errs, rem) && m != nil}
 	}},
 	{Name: "ReadCertificate", C08: true, Gen: func(r *engine.RNG) *engine.Shape {
 		sh := &engine.Shape{Kind: "cert", Seed: r.Uint64() | 1, U: []uint64{uint64(r.PickInt(0, 0, 1, 2, 3, 4, 5, 5, 6, 77, 255))}, N: r.PickInt(0, 0, 1, 3, 4, 5, 40, 72, 300)}
